@@ -43,6 +43,15 @@ long g_njumbo;
 long g_opos; uint8_t g_oold;          /* arbitrary output position and the byte it held before */
 int g_ohit; long g_oi, g_ostart, g_ooff;
 
+#ifdef A5_REAL_SIZE
+/* C19 variant: the REAL ovni_ev_size / ovni_payload_size / get_jumbo_payload_size (rt/ovni.c) also run on the
+ * region bytes and must return the size computed by the monitor (not on a jumbo event with fewer than 28 bytes
+ * of room: CBMC checks the 4-byte read of payload.jumbo.size as a 16-byte access, see c19_stream.c). */
+#define ovni_ev_size a5_real_ovni_ev_size
+#include "ovni.c"          /* the real /repo/src/rt/ovni.c */
+#undef ovni_ev_size
+#endif
+
 int
 ovni_ev_size(const struct ovni_ev *ev)
 {
@@ -63,6 +72,10 @@ ovni_ev_size(const struct ovni_ev *ev)
 		sz = NORMAL_SIZE(fl);
 	}
 	__CPROVER_assume(sz <= g_total - off && sz <= INT32_MAX);
+#ifdef A5_REAL_SIZE
+	if (!((fl & OVNI_EV_JUMBO) && g_total - off < 28))
+		VASSERT(a5_real_ovni_ev_size((const struct ovni_ev *) (g_reg + off)) == sz, "the real ovni_ev_size returns the size the trace format defines");
+#endif
 	/* HYP-S for i == g_cnt */
 	__CPROVER_assume(sz <= g_cap - g_out);
 	g_pending = 1; g_cur_off = off; g_cur_sz = sz;
@@ -92,7 +105,9 @@ struct stream;
 int stream_step(struct stream *stream) { (void) stream; return nondet_int(); }
 struct ovni_ev g_cur_ev;
 struct ovni_ev *stream_ev(struct stream *stream) { (void) stream; return &g_cur_ev; }
+#ifndef A5_REAL_SIZE
 uint64_t ovni_ev_get_clock(const struct ovni_ev *ev) { return ev->header.clock; }
+#endif
 
 #define main ovnisort_main
 #include "ovnisort.c"          /* the real /repo/src/emu/ovnisort.c */
